@@ -205,6 +205,31 @@ func TestC03_Mgrx(t *testing.T) {
 				if st2 := r.sync(c.chid); st2.Status() != datatransfer.Finalizing {
 					mfail(t, log, "C03/left-finalizing", "responder left Finalizing through a notice")
 				}
+				// neither does a validation that still requires finalization: a further update, or the
+				// initiator restarting the channel (re-validated with the original terms)
+				for k := rapid.IntRange(0, 2).Draw(t, "stillFinalizingSteps"); k > 0; k-- {
+					sentK := r.net.SentLen()
+					still := datatransfer.ValidationResult{Accepted: true, RequiresFinalization: true,
+						DataLimit: rapid.SampledFrom([]uint64{0, 0, 1, 1 << 40}).Draw(t, "limitWhileFinalizing")}
+					step := rapid.SampledFrom([]string{"update-still-requires", "restart-request-still-requires"}).Draw(t, "stillStep")
+					if step == "update-still-requires" {
+						_ = r.mgr.UpdateValidationStatus(bg(), c.chid, still)
+					} else {
+						r.vals["T/a"].Push(dbl.Outcome{Result: still})
+						deliver(r, c.other, newRequestMsg(c.chid.ID, true, c.pull(), c.voucher, c.base, c.sel), c.viaTrans && c.pull())
+					}
+					stK := r.sync(c.chid)
+					log = append(log, fmt.Sprintf("%s (limit %d) -> %s", step, still.DataLimit, datatransfer.Statuses[stK.Status()]))
+					if stK.Status() != datatransfer.Finalizing {
+						mfail(t, log, "C03/left-finalizing", "responder left Finalizing through %s although the validation still requires finalization: now %s", step, datatransfer.Statuses[stK.Status()])
+					}
+					for _, s := range r.net.SentSince(sentK) {
+						if resp, ok := s.Msg.(datatransfer.Response); ok && !s.Msg.IsRequest() && (resp.IsComplete() || resp.IsRestart()) && !resp.IsPaused() {
+							mfail(t, log, "C03/unpaused-reply-while-finalizing", "%s answered with an un-paused reply (complete=%v restart=%v) while finalization is still required", step, resp.IsComplete(), resp.IsRestart())
+						}
+					}
+					sp.Class("finalizing_survives_" + step)
+				}
 				release := rapid.SampledFrom([]string{"update", "resume"}).Draw(t, "release")
 				sent1 := r.net.SentLen()
 				if release == "update" {
